@@ -334,13 +334,78 @@ def resolved_backend(A, k, sigma, B, backend):
 
 
 def call_solver(fn, **info):
-    """call the entry point; iterative non-convergence is a counted rejection."""
+    """call the entry point; non-convergence reported by the iterative backend (ARPACK exception, lobpcg's
+    'not reaching the requested tolerance' warning) is a counted rejection."""
+    import warnings
+
     import scipy.sparse.linalg as spla
 
     try:
-        return fn()
+        with warnings.catch_warnings(record=True) as wlist:
+            warnings.simplefilter("always")
+            out = fn()
     except spla.ArpackNoConvergence as e:
         raise Reject("arpack-no-convergence") from e
+    for w in wlist:
+        if "not reaching the requested tolerance" in str(w.message):
+            raise Reject("lobpcg-no-convergence (backend warning)")
+    return out
+
+
+def _levels(ref, band):
+    r = np.sort(np.asarray(ref, dtype=float))
+    groups = [[r[0]]]
+    for x in r[1:]:
+        if x - groups[-1][-1] <= band:
+            groups[-1].append(x)
+        else:
+            groups.append([x])
+    return np.array([np.mean(g) for g in groups])
+
+
+def check_selection_levels(got, ref, sel, k, sigma, vtol, **info):
+    """Weaker oracle for single-vector Krylov solvers on degenerate spectra: every returned value is a genuine eigenvalue
+    (multiplicity respected) and no distinct *level* of the requested part is skipped; copies of a level may be missing."""
+    info.setdefault("rule", sel)
+    got = np.asarray(got, dtype=float).ravel()
+    ref = np.asarray(ref, dtype=float).ravel()
+    if got.size != min(int(k), ref.size):
+        raise Violation("count", got=int(got.size), want=min(int(k), ref.size), **info)
+    ok, e = multiset_subset(got, ref, vtol)
+    if not ok:
+        raise Violation("selection", clause="value-not-in-spectrum", **info)
+    band = 10 * vtol
+    lev = _levels(ref, band)
+    key = rule_key(lev, sel, sigma)
+    idx = {int(np.argmin(np.abs(lev - x))) for x in got}
+    t = len(idx)
+    kb = np.sort(key)[t - 1]
+    must = {int(i) for i in np.nonzero(key < kb - band)[0]}
+    may = {int(i) for i in np.nonzero(key <= kb + band)[0]}
+    if not (must <= idx <= may):
+        raise Violation("selection", clause="level-skipped", **info)
+    return e
+
+
+def select_oracle(got, ref, sel, k, sigma, vtol, krylov=False, deg=False, weak=False, **info):
+    """strict selection oracle; for a single-vector Krylov backend on a degenerate spectrum a failure that is only a
+    missing copy of a degenerate level is reported under its own clause (known finding C17-h); `weak` (documented
+    unreliable mode: ARPACK which='SM' without shift-invert beyond its Krylov dimension) only demands genuine values."""
+    if weak:
+        g = np.asarray(got).ravel()
+        if g.size != min(int(k), np.size(ref)):
+            raise Violation("count", got=int(g.size), want=min(int(k), int(np.size(ref))), **info)
+        ok, e = multiset_subset(g, ref, vtol)
+        if not ok:
+            raise Violation("selection", clause="value-not-in-spectrum", **dict(info, rule=sel))
+        return e
+    try:
+        return check_selection(got, ref, sel, k, sigma, vtol, **info)
+    except Violation as v:
+        if krylov and deg and v.reason == "selection" and not np.iscomplexobj(ref):
+            check_selection_levels(np.real(got), ref, sel, k, sigma, vtol, **info)
+            raise Violation("selection", clause="degenerate-copy-missed", **dict(info, rule=sel)) from v
+        raise
 
 
 def sigma_from(ref, gi, frac):
@@ -541,6 +606,9 @@ def run_eigh_partial(case):
     tol = INV64 if iterative else EXACT64
     deg = is_degenerate(ref, scale)
     info = dict(backend_resolved=bres, dtype="complex" if cplx else "real", degenerate=deg, rule=rule, rep=rep, fn=case["fn"])
+    # scipy documents shift-invert as the way to small-magnitude eigenvalues; plain which='SM' is only exact while the
+    # Krylov dimension (ncv = max(2k+1, 20)) spans the whole space
+    weak_sm = bres == "SCIPY" and rule == "SM" and d > 20
     fn = case["fn"]
     lk = vk = None
 
@@ -567,7 +635,7 @@ def run_eigh_partial(case):
         lk = np.asarray(lk)
         if np.iscomplexobj(lk) and np.max(np.abs(lk.imag), initial=0.0) > tol * scale:
             raise Violation("complex-eigenvalues", **info)
-        err = max(err, check_selection(lk.real, ref, rule, k, sigma, tol * scale, **info) / scale)
+        err = max(err, select_oracle(lk.real, ref, rule, k, sigma, tol * scale, krylov=bres == "SCIPY", deg=deg, weak=weak_sm, **info) / scale)
         if case["sort"] is not False:
             check_ascending(lk, **info)
         elif bres == "NUMPY" and lk.size > 1:
@@ -583,7 +651,7 @@ def run_eigh_partial(case):
             vc = vk.astype(np.complex128)
             lk2 = np.real(np.sum(vc.conj() * (H.astype(np.complex128) @ vc), axis=0))
             err = max(err, check_pairs(H, None, lk2, vk, tol, **info))
-            err = max(err, check_selection(lk2, ref, rule, k, sigma, 10 * tol * scale, **info) / scale)
+            err = max(err, select_oracle(lk2, ref, rule, k, sigma, 10 * tol * scale, krylov=bres == "SCIPY", deg=deg, weak=weak_sm, **info) / scale)
         else:
             err = max(err, check_pairs(H, None, lk.real, vk, tol, **info))
     thr = 10000 if sigma is not None else 2000
@@ -591,7 +659,7 @@ def run_eigh_partial(case):
     return {"nt": bool(kk >= 1 and (deg or m["kind"].startswith("block") or near_thr or rule != "SA")),
             "cls": ["res=" + bres, "rule=" + rule + ("(sigma only)" if which == "sigma" else ""), "rep=" + rep, "fn=" + fn,
                     "kind=" + m["kind"], "cplx" if cplx else "real", "sort=" + str(case["sort"])]
-                   + (["degenerate"] if deg else []) + ([f"auto:{'below' if d * d / max(k, 1) < thr else 'above'}"] if near_thr else [])
+                   + (["degenerate"] if deg else []) + (["SM-weak"] if weak_sm else []) + ([f"auto:{'below' if d * d / max(k, 1) < thr else 'above'}"] if near_thr else [])
                    + (["v0=" + case["v0form"]] if "v0form" in case else []),
             "err": err}
 
@@ -668,7 +736,7 @@ def run_eigh_generalized(case):
             raise Violation("refused-documented-input", exc="ValueError", **info) from e
         raise
     lk = np.asarray(lk)
-    err = check_selection(lk.real, ref, rule, k, sigma, tol * scale, **info) / scale
+    err = select_oracle(lk.real, ref, rule, k, sigma, tol * scale, krylov=bres == "SCIPY", deg=deg, **info) / scale
     check_ascending(lk, **info)
     if vk is not None:
         # B-orthonormality: v+ B v = 1
@@ -722,7 +790,7 @@ def run_eigh_projected(case):
     info = dict(backend_resolved=bres, dtype="complex" if cplx else "real", degenerate=deg, rule=case["which"], projected=True)
     lk, vk = call_solver(lambda: qu.eigh(A, k=k, P=P, **kw))
     lk, vk = np.asarray(lk), np.asarray(vk)
-    err = check_selection(lk.real, ref, case["which"], k, None, tol * scale, **info) / scale
+    err = select_oracle(lk.real, ref, case["which"], k, None, tol * scale, krylov=bres == "SCIPY", deg=deg, **info) / scale
     check_ascending(lk, **info)
     if vk.shape != (d, k):
         raise Violation("shape", got=list(vk.shape), want=[d, k], **info)
@@ -934,7 +1002,8 @@ def run_eig_partial(case):
     if not cplx and np.max(np.abs(ref.imag)) > vt and rule in ("LM", "SM", "LR", "SR"):
         # conjugate pairs tie exactly under these rules: handled by the tie band of the selection oracle
         pass
-    err = check_selection(lk, refsel, rule, k, sigma, vt, **info) / scale
+    weak_sm = bres == "SCIPY" and rule == "SM" and d > 20  # see run_eigh_partial
+    err = select_oracle(lk, refsel, rule, k, sigma, vt, weak=weak_sm, **info) / scale
     check_ascending(lk, **info)
     if vk is not None:
         vk = np.asarray(vk)
@@ -1099,6 +1168,9 @@ def run_window(case):
         need = ref[(dist < kb - tie) & (ref > lo + band) & (ref < hi - band)]
         ok_k, _ = multiset_subset(need, lk, vt)
         if not ok_k or lk.size > k:
+            if bres == "SCIPY" and deg and lk.size <= k and multiset_subset(np.unique(np.round(need / band)) * band, lk, 2 * band)[0]:
+                # every required level is present, only a copy of a degenerate level is missing (single-vector Krylov)
+                raise Violation("selection", clause="degenerate-copy-missed", got=int(lk.size), **info)
             raise Violation("selection", clause="requested-value-missing", got=int(lk.size), **info)
     if lk.size > 1 and not np.all(np.diff(lk) >= (-band if fn == "eigvecsh_window" else 0.0)):
         raise Violation("sorted", **info)
@@ -1254,6 +1326,9 @@ def run_svds(case):
     check_desc(sv, **info)
     err = float(np.max(np.abs(sv - ref[:kk]), initial=0.0)) / scale
     if not err <= tol:
+        if bres == "SCIPY" and deg:
+            check_selection_levels(sv, ref, "LA", kk, None, tol * scale, **info)
+            raise Violation("selection", clause="degenerate-copy-missed", **info)
         raise Violation("selection", clause="not-the-largest", err=err, **info)
     if U is not None:
         err = max(err, check_triplets(M, U, sv, VH, tol, **info))
@@ -1870,7 +1945,7 @@ def run_lazy_linop(case):
         else:
             lk, vk = call_solver(lambda: qu.eigvalsh(lo, k=k, which=which, **kw)), None
         lk = np.asarray(lk)
-        err = check_selection(lk.real, ref, which, k, None, tol * scale, **info) / scale
+        err = select_oracle(lk.real, ref, which, k, None, tol * scale, krylov=bres == "SCIPY", deg=deg, **info) / scale
         check_ascending(lk, **info)
         if vk is not None:
             err = max(err, check_pairs(Md, None, lk.real, np.asarray(vk), tol, **info))
